@@ -83,3 +83,18 @@ def decode_accepts_mutable(n):
     b = bytearray(sym_bytes("b", n))
     r = decode_number(b)
     check(r == onum(b, n), "bytearray input")
+
+
+def after_earlier_calls(n):
+    """the codec has no memory: results do not depend on what was encoded / decoded earlier in the process"""
+    m0 = sym_int("m0", 0, P4 - 1)
+    b0 = sym_bytes("b0", n)
+    encode_number(m0)
+    decode_number(b0)
+    m = sym_int("n", 0, P4 - 1)
+    b = encode_number(m)
+    check(decode_number(b) == m, "after earlier calls: decode(encode(n)) == n")
+    for i in range(4):
+        check(1 <= b[i] <= 254, "after earlier calls: no 0x00/0xFF byte")
+    x = sym_bytes("b", n)
+    check(decode_number(x) == onum(x, n), "after earlier calls: decode equals the positional formula")
